@@ -20,3 +20,147 @@ func HarnessC08Bytes() {
 		vCover("error")
 	}
 }
+
+// ---- prefixes of valid templates (Appendix B.3) ----
+
+var c08Corpus = []string{
+	"a{{ 1 + 2 }}b",
+	"@if(true)abc@end",
+	"@if(x)a@elseif(y)b@else c@end",
+	"{{ {a: 1, b: \"s\"} }}",
+	"{{-- note --}}x",
+	"@each(v in [1, 2])<{{ v }}>@end",
+	"@for(i = 0; i < 2; i++){{ i }}@end",
+	"{{ \"it's\" }}",
+	"{{ a.len() ? 'y' : 'n' }}",
+	"@each(v in a)@if(v){{ v }}@end@end",
+}
+
+// refIncomplete: the template text p ends inside an open {{ }}, directive argument list, string or comment, or
+// with a block directive whose @end has not been seen. Only the constructs used by the corpus are scanned.
+func refIncomplete(p string) bool {
+	open := 0
+	i := 0
+	for i < len(p) {
+		if p[i] == '\\' && i+1 < len(p) && (p[i+1] == '{' || p[i+1] == '@') {
+			i += 2
+			continue
+		}
+		if refContainsAt(p, "{{--", i) {
+			j := i + 4
+			for {
+				if j+4 > len(p) {
+					return true
+				}
+				if refContainsAt(p, "--}}", j) {
+					break
+				}
+				j++
+			}
+			i = j + 4
+			continue
+		}
+		if refContainsAt(p, "{{", i) {
+			j, ok := refSkipCode(p, i+2, false)
+			if !ok {
+				return true
+			}
+			i = j
+			continue
+		}
+		if p[i] == '@' {
+			kw := ""
+			for _, k := range []string{"@elseif", "@else", "@end", "@if", "@each", "@for"} {
+				if refContainsAt(p, k, i) {
+					kw = k
+					break
+				}
+			}
+			switch kw {
+			case "@if", "@each", "@for":
+				open++
+			case "@end":
+				open--
+			}
+			if kw != "" {
+				i += len(kw)
+				if kw == "@if" || kw == "@each" || kw == "@for" || kw == "@elseif" {
+					if i >= len(p) || p[i] != '(' {
+						return true // argument list not yet written
+					}
+					j, ok := refSkipCode(p, i+1, true)
+					if !ok {
+						return true
+					}
+					i = j
+				}
+				continue
+			}
+		}
+		i++
+	}
+	return open > 0
+}
+
+// refSkipCode scans code from i to the closing "}}" (or the matching ")" when parens), skipping strings.
+func refSkipCode(p string, i int, parens bool) (int, bool) {
+	depth := 0
+	braces := 0
+	for i < len(p) {
+		c := p[i]
+		switch {
+		case c == '"' || c == '\'':
+			j := i + 1
+			for {
+				if j >= len(p) {
+					return 0, false
+				}
+				if p[j] == c && p[j-1] != '\\' {
+					break
+				}
+				j++
+			}
+			i = j + 1
+			continue
+		case parens && c == '(':
+			depth++
+		case parens && c == ')':
+			if depth == 0 {
+				return i + 1, true
+			}
+			depth--
+		case !parens && c == '{':
+			braces++
+		case !parens && c == '}':
+			if braces > 0 {
+				braces--
+			} else if i+1 < len(p) && p[i+1] == '}' {
+				return i + 2, true
+			}
+		}
+		i++
+	}
+	return 0, false
+}
+
+// HarnessC08Prefix: every prefix of a valid template, optionally followed by one arbitrary byte, terminates
+// without crashing, and is rejected with an error when it is incomplete.
+func HarnessC08Prefix() {
+	t := c08Corpus[vChoice("template", len(c08Corpus))]
+	cut := vChoice("cut", len(t))
+	src := t[:cut]
+	if vChoice("extra", 2) == 1 {
+		b := vByte("b")
+		vAssume(b != 0)
+		src += string([]byte{b})
+	}
+	incomplete := refIncomplete(src)
+	prog, errs := parseStr(src)
+	vCover("returned")
+	if len(errs) == 0 {
+		vAssert(prog != nil, "program-or-error")
+		vAssert(!incomplete, "incomplete-template-is-rejected")
+	} else {
+		vAssert(errs[0].Line() >= 1, "error-has-line")
+	}
+}
